@@ -66,7 +66,8 @@ SPEC = dict(
            13: "unregister_left_trust_counter_or_connection", 14: "cancel_did_not_abort_or_clear_trust",
            15: "close_report_removed_wrong_registry_entry", 16: "disconnect_notification_missing_or_repeated",
            17: "trusted_without_registration_or_hello_ok", 18: "connection_created_with_wrong_ship_id",
-           19: "client_connection_completed_after_unregister"},
+           19: "client_connection_completed_after_unregister",
+           20: "auto_accept_not_what_the_user_set_last"},
     rule="sequences of 6-25 operations on a real hub.Hub over 3 SKIs (random spelling per call) drawn from: register, "
          "unregister, cancel, disconnect, set auto-accept, shutdown, store a SHIP ID, mDNS report of a random SKI subset, "
          "register a fake connection, handshake-state report (any state, with/without error), close report by any fake "
